@@ -109,9 +109,9 @@ func ruleCoreIdentity(c *Ctx) []Obligation {
 				case len(bad) > 0:
 					o.Status, o.Detail = Violated, "counter field "+fv.Name()+" is not monotonic: "+strings.Join(bad, "; ")
 				case !incHere:
-					o.Status, o.Detail = Violated, "counter field " + fv.Name() + " is not incremented in the function that hands it out: two cores can receive the same number"
+					o.Status, o.Detail = Violated, "counter field "+fv.Name()+" is not incremented in the function that hands it out: two cores can receive the same number"
 				default:
-					o.Status, o.Detail = Discharged, "number read from field " + fv.Name() + ", which is only ever incremented, and incremented here"
+					o.Status, o.Detail = Discharged, "number read from field "+fv.Name()+", which is only ever incremented, and incremented here"
 				}
 				obs = append(obs, o)
 				return true
@@ -150,148 +150,227 @@ func ruleCoreIdentity(c *Ctx) []Obligation {
 			if !recv {
 				return true
 			}
-			// inner loops over a list of cores that build a filtered list
+			// inner loops over a list of cores that build a filtered list: in the wait loop itself, or in a helper
+			// it calls with the signalling core / its number as an argument
 			found := 0
-			ast.Inspect(outer.Body, func(m ast.Node) bool {
-				// the iterated element: the range value variable, or LIST[i] with i the range key / the
-				// counter of a `for i := 0; i < len(LIST); i++` loop
-				var innerBody *ast.BlockStmt
-				var innerNode ast.Node
-				var isElem func(e ast.Expr) bool
-				switch inner := m.(type) {
-				case *ast.RangeStmt:
-					if inner == outer {
-						return true
-					}
-					lt := info.TypeOf(inner.X)
-					sl, isSl := lt.Underlying().(*types.Slice)
-					if !isSl || !types.Identical(sl.Elem(), coreT) {
-						return true
-					}
-					var yv, kv *types.Var
-					if inner.Value != nil {
-						yv, _ = info.Defs[identOf(inner.Value)].(*types.Var)
-					}
-					if inner.Key != nil {
-						kv, _ = info.Defs[identOf(inner.Key)].(*types.Var)
-					}
-					listTxt := exprStr(inner.X)
-					isElem = func(e ast.Expr) bool {
-						e = ast.Unparen(e)
-						if id, ok := e.(*ast.Ident); ok && yv != nil && info.Uses[id] == yv {
+			sigCore := map[types.Object]bool{xv: true}
+			sigNum := map[types.Object]bool{}
+			var scanBody func(body ast.Node)
+			scanBody = func(body ast.Node) {
+				ast.Inspect(body, func(m ast.Node) bool {
+					// the iterated element: the range value variable, or LIST[i] with i the range key / the
+					// counter of a `for i := 0; i < len(LIST); i++` loop
+					var innerBody *ast.BlockStmt
+					var innerNode ast.Node
+					var isElem func(e ast.Expr) bool
+					switch inner := m.(type) {
+					case *ast.RangeStmt:
+						if inner == outer {
 							return true
 						}
-						if ix, ok := e.(*ast.IndexExpr); ok && kv != nil && exprStr(ix.X) == listTxt {
-							if id, ok := ast.Unparen(ix.Index).(*ast.Ident); ok && info.Uses[id] == kv {
+						lt := info.TypeOf(inner.X)
+						sl, isSl := lt.Underlying().(*types.Slice)
+						if !isSl || !types.Identical(sl.Elem(), coreT) {
+							return true
+						}
+						var yv, kv *types.Var
+						if inner.Value != nil {
+							yv, _ = info.Defs[identOf(inner.Value)].(*types.Var)
+						}
+						if inner.Key != nil {
+							kv, _ = info.Defs[identOf(inner.Key)].(*types.Var)
+						}
+						listTxt := exprStr(inner.X)
+						isElem = func(e ast.Expr) bool {
+							e = ast.Unparen(e)
+							if id, ok := e.(*ast.Ident); ok && yv != nil && info.Uses[id] == yv {
 								return true
 							}
+							if ix, ok := e.(*ast.IndexExpr); ok && kv != nil && exprStr(ix.X) == listTxt {
+								if id, ok := ast.Unparen(ix.Index).(*ast.Ident); ok && info.Uses[id] == kv {
+									return true
+								}
+							}
+							return false
 						}
-						return false
+						innerBody, innerNode = inner.Body, inner
+					case *ast.ForStmt:
+						// for i := …; i < len(LIST); i++
+						cond, ok := inner.Cond.(*ast.BinaryExpr)
+						if !ok {
+							return true
+						}
+						call, ok := ast.Unparen(cond.Y).(*ast.CallExpr)
+						if !ok || len(call.Args) != 1 {
+							return true
+						}
+						if id, ok := call.Fun.(*ast.Ident); !ok || id.Name != "len" {
+							return true
+						}
+						lt := info.TypeOf(call.Args[0])
+						sl, isSl := lt.Underlying().(*types.Slice)
+						if !isSl || !types.Identical(sl.Elem(), coreT) {
+							return true
+						}
+						iv, _ := info.Uses[identOf(cond.X)].(*types.Var)
+						if iv == nil {
+							return true
+						}
+						listTxt := exprStr(call.Args[0])
+						isElem = func(e ast.Expr) bool {
+							if ix, ok := ast.Unparen(e).(*ast.IndexExpr); ok && exprStr(ix.X) == listTxt {
+								if id, ok := ast.Unparen(ix.Index).(*ast.Ident); ok && info.Uses[id] == iv {
+									return true
+								}
+							}
+							return false
+						}
+						innerBody, innerNode = inner.Body, inner
+					case *ast.CallExpr:
+						// slices.DeleteFunc(LIST, func(c Core) bool { return <cond> }): the predicate is the filter
+						fn := CalleeOf(info, inner)
+						if fn == nil || fn.Pkg() == nil || fn.Pkg().Path() != "slices" || fn.Name() != "DeleteFunc" || len(inner.Args) != 2 {
+							return true
+						}
+						lit, ok := ast.Unparen(inner.Args[1]).(*ast.FuncLit)
+						if !ok || len(lit.Type.Params.List) != 1 || len(lit.Type.Params.List[0].Names) != 1 || len(lit.Body.List) != 1 {
+							return true
+						}
+						pv, _ := info.Defs[lit.Type.Params.List[0].Names[0]].(*types.Var)
+						ret, isRet := lit.Body.List[0].(*ast.ReturnStmt)
+						if pv == nil || !types.Identical(pv.Type(), coreT) || !isRet || len(ret.Results) != 1 {
+							return true
+						}
+						isElem = func(e ast.Expr) bool {
+							id, ok := ast.Unparen(e).(*ast.Ident)
+							return ok && info.Uses[id] == pv
+						}
+						// same shape as `if <cond> { drop }`
+						innerBody = &ast.BlockStmt{List: []ast.Stmt{&ast.IfStmt{Cond: ret.Results[0], Body: &ast.BlockStmt{}}}}
+						innerNode = inner
+					default:
+						return true
 					}
-					innerBody, innerNode = inner.Body, inner
-				case *ast.ForStmt:
-					// for i := …; i < len(LIST); i++
-					cond, ok := inner.Cond.(*ast.BinaryExpr)
+					// an element local: c := LIST[i]
+					elemLocals := map[types.Object]bool{}
+					for _, s := range innerBody.List {
+						if as, ok := s.(*ast.AssignStmt); ok && len(as.Lhs) == 1 && len(as.Rhs) == 1 && isElem(as.Rhs[0]) {
+							if id, ok := as.Lhs[0].(*ast.Ident); ok {
+								if o := info.Defs[id]; o != nil {
+									elemLocals[o] = true
+								}
+							}
+						}
+					}
+					baseElem := isElem
+					isElem = func(e ast.Expr) bool {
+						if id, ok := ast.Unparen(e).(*ast.Ident); ok && elemLocals[info.Uses[id]] {
+							return true
+						}
+						return baseElem(e)
+					}
+					inner := struct {
+						Body *ast.BlockStmt
+						pos  token.Pos
+					}{innerBody, innerNode.Pos()}
+					// filter condition: the if statement guarding continue / append
+					var conds []ast.Expr
+					for _, s := range inner.Body.List {
+						if ifs, ok := s.(*ast.IfStmt); ok {
+							conds = append(conds, ifs.Cond)
+						}
+					}
+					if len(conds) == 0 {
+						return true
+					}
+					found++
+					o := Obligation{Key: "runtime." + FuncName(fd) + "|finished core removed by identity", Pos: c.Pos(inner.pos), Nontrivial: true}
+					okID := false
+					var why []string
+					for _, cond := range conds {
+						b, isB := ast.Unparen(cond).(*ast.BinaryExpr)
+						if !isB || (b.Op != token.EQL && b.Op != token.NEQ) {
+							why = append(why, "filter condition `"+exprStr(cond)+"` is not an (in)equality of core numbers")
+							continue
+						}
+						numOf := func(e ast.Expr) ast.Expr {
+							s, ok := ast.Unparen(e).(*ast.SelectorExpr)
+							if !ok || info.Uses[s.Sel] != numField {
+								return nil
+							}
+							return s.X
+						}
+						isSignalled := func(e ast.Expr) bool {
+							id, ok := ast.Unparen(e).(*ast.Ident)
+							return ok && sigCore[info.Uses[id]]
+						}
+						// the signalling core's number: <signalled>.num, or a helper parameter bound to it
+						isSigNum := func(e ast.Expr) bool {
+							if x := numOf(e); x != nil && isSignalled(x) {
+								return true
+							}
+							id, ok := ast.Unparen(e).(*ast.Ident)
+							return ok && sigNum[info.Uses[id]]
+						}
+						isElemNum := func(e ast.Expr) bool {
+							x := numOf(e)
+							return x != nil && isElem(x)
+						}
+						if (isElemNum(b.X) && isSigNum(b.Y)) || (isSigNum(b.X) && isElemNum(b.Y)) {
+							okID = true
+						} else {
+							why = append(why, "filter condition `"+exprStr(cond)+"` does not compare the number of the iterated core with the number of the core that signalled (positions are not stable: the list is replaced while the outer loop runs over the old one)")
+						}
+					}
+					if okID && len(why) == 0 {
+						o.Status, o.Detail = Discharged, "entries are dropped iff their number equals the signalling core's number"
+					} else {
+						o.Status, o.Detail = Violated, strings.Join(why, "; ")
+					}
+					obs = append(obs, o)
+					return true
+				})
+			}
+			scanBody(outer.Body)
+			if found == 0 {
+				// one level of helpers
+				ast.Inspect(outer.Body, func(m ast.Node) bool {
+					call, ok := m.(*ast.CallExpr)
 					if !ok {
 						return true
 					}
-					call, ok := ast.Unparen(cond.Y).(*ast.CallExpr)
-					if !ok || len(call.Args) != 1 {
+					fn := CalleeOf(info, call)
+					if fn == nil || fn.Pkg() != p.Types {
 						return true
 					}
-					if id, ok := call.Fun.(*ast.Ident); !ok || id.Name != "len" {
-						return true
-					}
-					lt := info.TypeOf(call.Args[0])
-					sl, isSl := lt.Underlying().(*types.Slice)
-					if !isSl || !types.Identical(sl.Elem(), coreT) {
-						return true
-					}
-					iv, _ := info.Uses[identOf(cond.X)].(*types.Var)
-					if iv == nil {
-						return true
-					}
-					listTxt := exprStr(call.Args[0])
-					isElem = func(e ast.Expr) bool {
-						if ix, ok := ast.Unparen(e).(*ast.IndexExpr); ok && exprStr(ix.X) == listTxt {
-							if id, ok := ast.Unparen(ix.Index).(*ast.Ident); ok && info.Uses[id] == iv {
-								return true
+					for _, hd := range AllFuncDecls(p) {
+						if hd.Body == nil || info.Defs[hd.Name] != fn {
+							continue
+						}
+						sig := fn.Type().(*types.Signature)
+						bound := false
+						for i, a := range call.Args {
+							if i >= sig.Params().Len() {
+								break
+							}
+							if id, ok := ast.Unparen(a).(*ast.Ident); ok && info.Uses[id] == xv {
+								sigCore[sig.Params().At(i)] = true
+								bound = true
+							}
+							if sel, ok := ast.Unparen(a).(*ast.SelectorExpr); ok && info.Uses[sel.Sel] == numField {
+								if id, ok := ast.Unparen(sel.X).(*ast.Ident); ok && info.Uses[id] == xv {
+									sigNum[sig.Params().At(i)] = true
+									bound = true
+								}
 							}
 						}
-						return false
-					}
-					innerBody, innerNode = inner.Body, inner
-				default:
-					return true
-				}
-				// an element local: c := LIST[i]
-				elemLocals := map[types.Object]bool{}
-				for _, s := range innerBody.List {
-					if as, ok := s.(*ast.AssignStmt); ok && len(as.Lhs) == 1 && len(as.Rhs) == 1 && isElem(as.Rhs[0]) {
-						if id, ok := as.Lhs[0].(*ast.Ident); ok {
-							if o := info.Defs[id]; o != nil {
-								elemLocals[o] = true
-							}
+						if bound {
+							scanBody(hd.Body)
 						}
 					}
-				}
-				baseElem := isElem
-				isElem = func(e ast.Expr) bool {
-					if id, ok := ast.Unparen(e).(*ast.Ident); ok && elemLocals[info.Uses[id]] {
-						return true
-					}
-					return baseElem(e)
-				}
-				inner := struct {
-					Body *ast.BlockStmt
-					pos  token.Pos
-				}{innerBody, innerNode.Pos()}
-				// filter condition: the if statement guarding continue / append
-				var conds []ast.Expr
-				for _, s := range inner.Body.List {
-					if ifs, ok := s.(*ast.IfStmt); ok {
-						conds = append(conds, ifs.Cond)
-					}
-				}
-				if len(conds) == 0 {
 					return true
-				}
-				found++
-				o := Obligation{Key: "runtime." + FuncName(fd) + "|finished core removed by identity", Pos: c.Pos(inner.pos), Nontrivial: true}
-				okID := false
-				var why []string
-				for _, cond := range conds {
-					b, isB := ast.Unparen(cond).(*ast.BinaryExpr)
-					if !isB || (b.Op != token.EQL && b.Op != token.NEQ) {
-						why = append(why, "filter condition `"+exprStr(cond)+"` is not an (in)equality of core numbers")
-						continue
-					}
-					numOf := func(e ast.Expr) ast.Expr {
-						s, ok := ast.Unparen(e).(*ast.SelectorExpr)
-						if !ok || info.Uses[s.Sel] != numField {
-							return nil
-						}
-						return s.X
-					}
-					isSignalled := func(e ast.Expr) bool {
-						id, ok := ast.Unparen(e).(*ast.Ident)
-						return ok && info.Uses[id] == xv
-					}
-					l, r := numOf(b.X), numOf(b.Y)
-					if l != nil && r != nil && ((isElem(l) && isSignalled(r)) || (isSignalled(l) && isElem(r))) {
-						okID = true
-					} else {
-						why = append(why, "filter condition `"+exprStr(cond)+"` does not compare the number of the iterated core with the number of the core that signalled (positions are not stable: the list is replaced while the outer loop runs over the old one)")
-					}
-				}
-				if okID && len(why) == 0 {
-					o.Status, o.Detail = Discharged, "entries are dropped iff their number equals the signalling core's number"
-				} else {
-					o.Status, o.Detail = Violated, strings.Join(why, "; ")
-				}
-				obs = append(obs, o)
-				return true
-			})
+				})
+			}
 			if found == 0 {
 				obs = append(obs, Obligation{Key: "runtime." + FuncName(fd) + "|finished core removed by identity", Pos: c.Pos(outer.Pos()), Status: Undecided,
 					Detail: "the loop receives from a core's signal channel but no filtering loop over the live list was recognised"})
